@@ -23,6 +23,7 @@ fn mode(m: &HashMap<String, String>) -> AccessListMode {
 }
 
 pub fn run(kind: &str, args: &[String]) {
+    let serve_started = std::time::Instant::now();
     let m = kv(args);
     let port: u16 = get(&m, "port", 0);
     // fault=<worker>:<panic|return>:<ms after start>
@@ -92,6 +93,10 @@ pub fn run(kind: &str, args: &[String]) {
         }
         _ => Err(anyhow::anyhow!("unknown tracker kind")),
     };
+    // the child's own measure (independent of how long the observer takes to notice the exit)
+    println!("TIMING since_fault_ms={} run_ms={}",
+        aquatic_common::verif_hooks::fault_fired().map(|t| t.elapsed().as_millis() as i64).unwrap_or(-1),
+        serve_started.elapsed().as_millis());
     match res {
         Ok(()) => println!("EXIT ok"),
         Err(e) => println!("EXIT err {}", format!("{:#}", e).replace('\n', " ")),
